@@ -1,6 +1,7 @@
 LC_HEADER = ('From LC Require Import Lib.Bytes Model.MountInfo Model.FsTree Model.Kernel Model.Layers Cases.LC Cases.C09.\n'
              'Open Scope string_scope.\n')
 PROP = dict(
+    pidns=True,
     go='c09', n_quick=200, n_thorough=2000,
     coq_header=LC_HEADER,
     case_type='LC.case', verdict='C09.verdict',
